@@ -63,7 +63,8 @@ var checkNormal = ev.Register("normal", func(c *NormCase) ev.Outcome {
 		math.Abs((c.Mu-lo)-(hi-c.Mu)) > 1e-9*(hi-lo) || ref.NormCDFGamma(zExact(hi, c.Mu, c.Sigma))-ref.NormCDFGamma(zExact(lo, c.Mu, c.Sigma)) < 0.99 {
 		return ev.Fail("Bounds = %v,%v are not a symmetric interval about Mu=%v holding >= 99%% of the mass (Sigma=%v)", lo, hi, c.Mu, c.Sigma)
 	}
-	if d.CDF(math.Inf(-1)) != 0 || d.CDF(math.Inf(1)) != 1 || d.CDF(-1e300) != 0 || d.CDF(1e300) != 1 {
+	// +-1e300 is forty and more standard deviations out only for Sigma below 1e250
+	if d.CDF(math.Inf(-1)) != 0 || d.CDF(math.Inf(1)) != 1 || (c.Sigma < 1e250 && (d.CDF(-1e300) != 0 || d.CDF(1e300) != 1)) {
 		return ev.Fail("limits: CDF(-Inf,+Inf,-1e300,1e300) = %v,%v,%v,%v", d.CDF(math.Inf(-1)), d.CDF(math.Inf(1)), d.CDF(-1e300), d.CDF(1e300))
 	}
 	xs := make([]float64, 0, len(c.Us))
@@ -100,7 +101,9 @@ var checkNormal = ev.Register("normal", func(c *NormCase) ev.Outcome {
 			return ev.Fail("PDF(%v) = %v", x, p)
 		}
 		wantPDF := math.Exp(-z*z/2) / (c.Sigma * math.Sqrt(2*math.Pi))
-		if !(math.Abs(p-wantPDF) <= 1e-9*wantPDF+1e-300) {
+		// absolute slack: Exp(-z*z/2) below 1e-300 sits on the subnormal grid (or is 0), and that
+		// error is scaled by 1/(Sigma*sqrt(2 pi)) like the value itself
+		if !(math.Abs(p-wantPDF) <= 1e-9*wantPDF+math.Max(1e-300, 1e-300/c.Sigma)) {
 			return ev.Fail("PDF(%v) = %.17g, formula %.17g", x, p, wantPDF)
 		}
 		// reflection about the centre
@@ -411,9 +414,17 @@ func drawNormalParams(t *rapid.T) (mu, sigma float64) {
 	default:
 		mu = gen.Sign(t, "mu.s") * gen.LogUniform(t, 1, 1e6, "mu.big")
 	}
-	if rapid.IntRange(0, 4).Draw(t, "sigma.one") == 0 {
+	switch rapid.IntRange(0, 5).Draw(t, "sigma.one") {
+	case 0:
 		sigma = 1
-	} else {
+	case 5:
+		// scales whose square is not representable although the density and the standardised
+		// argument are (round 11: intermediate overflow / underflow)
+		sigma = rapid.SampledFrom([]float64{1e160, 1e-160, 1e155, 1e-155, 1e200, 1e-200, 1e300, 1e-300}).Draw(t, "sigma.extreme")
+		if sigma < 1 {
+			mu = 0 // x = mu + u*sigma must resolve u
+		}
+	default:
 		sigma = gen.LogUniform(t, 1e-6, 1e6, "sigma")
 	}
 	return
